@@ -33,8 +33,9 @@ theorem cFind_recv_ne (cipher : Bytes → Bytes → Bytes) (cs : List Ctx) (st :
     simp [h]
   · rfl
 
-theorem cFind_send_ne (cipher : Bytes → Bytes → Bytes) (st : CStore) (m : Msg) (seq sepMid : Option Nat) (t : Bytes)
-    (h : m.token ≠ t) (r : Msg) (st' : CStore) (hs : serverSendAny cipher st m seq sepMid = some (r, st')) :
+theorem cFind_send_ne (cipher : Bytes → Bytes → Bytes) (st : CStore) (m : Msg) (ask : Bool) (seq : Nat) (sepMid : Option Nat)
+    (t : Bytes)
+    (h : m.token ≠ t) (r : Msg) (st' : CStore) (hs : serverSendAny cipher st m ask seq sepMid = some (r, st')) :
     cFind st' t = cFind st t := by
   have h' : ¬ t = m.token := fun x => h x.symm
   unfold serverSendAny at hs
@@ -42,7 +43,7 @@ theorem cFind_send_ne (cipher : Bytes → Bytes → Bytes) (st : CStore) (m : Ms
   | none => simp [hf] at hs
   | some e =>
     simp only [hf] at hs
-    cases hp : protectResponse cipher e.ctx e.b m seq sepMid with
+    cases hp : protectResponseFor cipher e.ctx e.b e.observe m ask seq sepMid with
     | none => simp [hp] at hs
     | some r0 =>
       simp only [hp, Option.some.injEq, Prod.mk.injEq] at hs
@@ -58,11 +59,11 @@ theorem cFind_step_ne (cipher : Bytes → Bytes → Bytes) (cs : List Ctx) (st :
     (h : s.token ≠ t) : cFind (serverStepAny cipher cs st s) t = cFind st t := by
   cases s with
   | recv pm => exact cFind_recv_ne cipher cs st pm t h
-  | send m seq sepMid =>
+  | send m ask seq sepMid =>
     simp only [serverStepAny]
-    cases hs : serverSendAny cipher st m seq sepMid with
+    cases hs : serverSendAny cipher st m ask seq sepMid with
     | none => rfl
-    | some x => exact cFind_send_ne cipher st m seq sepMid t h x.1 x.2 hs
+    | some x => exact cFind_send_ne cipher st m ask seq sepMid t h x.1 x.2 hs
 
 theorem cFind_run_ne (cipher : Bytes → Bytes → Bytes) (cs : List Ctx) (steps : List XStep) (t : Bytes)
     (h : ∀ s ∈ steps, s.token ≠ t) : ∀ st, cFind (serverRunAny cipher cs st steps) t = cFind st t := by
@@ -76,6 +77,41 @@ theorem cFind_run_ne (cipher : Bytes → Bytes → Bytes) (cs : List Ctx) (steps
     unfold serverRunAny at this
     rw [this]
     exact cFind_step_ne cipher cs st s t (h s List.mem_cons_self)
+
+/-- a request that no held context verifies binds nothing and re-binds nothing (D14.15 / D14.19) -/
+theorem serverRecvAny_rej (cipher : Bytes → Bytes → Bytes) (cs : List Ctx) (st : CStore) (pm : Msg)
+    (h : ∀ x b, unprotectRequestAny cipher cs pm ≠ .ok x b) : (serverRecvAny cipher cs st pm).2 = st := by
+  unfold serverRecvAny
+  split
+  · rename_i x b c hx _
+    exact absurd hx (h x b)
+  · rfl
+
+/-- an event that leaves the entry of token `t` alone: it concerns another token, or it is a request (with whatever
+token) that does not verify -/
+def XStepLeaves (cipher : Bytes → Bytes → Bytes) (cs : List Ctx) (t : Bytes) (s : XStep) : Prop :=
+  s.token ≠ t ∨ ∃ pm, s = .recv pm ∧ ∀ x b, unprotectRequestAny cipher cs pm ≠ .ok x b
+
+theorem cFind_step_leaves (cipher : Bytes → Bytes → Bytes) (cs : List Ctx) (st : CStore) (s : XStep) (t : Bytes)
+    (h : XStepLeaves cipher cs t s) : cFind (serverStepAny cipher cs st s) t = cFind st t := by
+  rcases h with h | ⟨pm, hs, hrej⟩
+  · exact cFind_step_ne cipher cs st s t h
+  · subst hs
+    simp only [serverStepAny]
+    rw [serverRecvAny_rej cipher cs st pm hrej]
+
+theorem cFind_run_leaves (cipher : Bytes → Bytes → Bytes) (cs : List Ctx) (steps : List XStep) (t : Bytes)
+    (h : ∀ s ∈ steps, XStepLeaves cipher cs t s) : ∀ st, cFind (serverRunAny cipher cs st steps) t = cFind st t := by
+  induction steps with
+  | nil => intro st; rfl
+  | cons s rest ih =>
+    intro st
+    unfold serverRunAny
+    rw [List.foldl_cons]
+    have := ih (fun x hx => h x (List.mem_cons_of_mem _ hx)) (serverStepAny cipher cs st s)
+    unfold serverRunAny at this
+    rw [this]
+    exact cFind_step_leaves cipher cs st s t (h s List.mem_cons_self)
 
 /-- the context that accepts a request is the one the request selects on an unambiguous set -/
 theorem selectFor_of_ok (cipher : Bytes → Bytes → Bytes) (cs : List Ctx) (hu : Unambiguous cs) (c : Ctx) (hc : c ∈ cs)
@@ -127,20 +163,26 @@ theorem findSAssoc_filter (as : List SAssoc) (t t' : Bytes) :
     findSAssoc (as.filter fun a => a.token ≠ t') t = if t = t' then none else findSAssoc as t :=
   find_filter_key (fun a : SAssoc => a.token) as t t'
 
-/-- after a `decrypt` step the association of its token holds the new recipient context; the others are untouched -/
-theorem findSAssoc_decrypt (s : Srv) (t : Bytes) (pos : RPos) (aad nonce piv : Bytes) (v o : Bool) (t' : Bytes) :
-    (t' = t → ∃ a, findSAssoc (srvDecrypt s t pos aad nonce piv v o).as t' = some a ∧ a.rcp = pos ∧ a.piv = piv ∧
-        a.nonce = nonce ∧ a.aad = aad) ∧
-    (¬ t' = t → findSAssoc (srvDecrypt s t pos aad nonce piv v o).as t' = findSAssoc s.as t') := by
+/-- a request that does not verify leaves `session->associations` as it is (fix 9631fdc) -/
+theorem srvDecrypt_unverified (s : Srv) (t : Bytes) (pos : RPos) (aad nonce piv : Bytes) (o : Bool) :
+    (srvDecrypt s t pos aad nonce piv false o).as = s.as := rfl
+
+/-- after a VERIFIED `decrypt` step the association of its token holds the new recipient context, nonce, AAD and Partial IV
+(and `is_observe` when the request carried Observe); the others are untouched -/
+theorem findSAssoc_decrypt (s : Srv) (t : Bytes) (pos : RPos) (aad nonce piv : Bytes) (o : Bool) (t' : Bytes) :
+    (t' = t → ∃ a, findSAssoc (srvDecrypt s t pos aad nonce piv true o).as t' = some a ∧ a.rcp = pos ∧ a.piv = piv ∧
+        a.nonce = nonce ∧ a.aad = aad ∧ (o = true → a.isObserve = true)) ∧
+    (¬ t' = t → findSAssoc (srvDecrypt s t pos aad nonce piv true o).as t' = findSAssoc s.as t') := by
   have key : ∀ as1 : List SAssoc,
       (t' = t → ∃ a, findSAssoc as1 t' = some a ∧ a.rcp = pos ∧ a.piv = piv ∧ a.nonce = nonce ∧ a.aad = aad) →
       (¬ t' = t → findSAssoc as1 t' = findSAssoc s.as t') →
-      (t' = t → ∃ a, findSAssoc (if (v && o) = true then as1.map fun a => if a.token = t then { a with isObserve := true } else a
-                                  else as1) t' = some a ∧ a.rcp = pos ∧ a.piv = piv ∧ a.nonce = nonce ∧ a.aad = aad) ∧
-      (¬ t' = t → findSAssoc (if (v && o) = true then as1.map fun a => if a.token = t then { a with isObserve := true } else a
+      (t' = t → ∃ a, findSAssoc (if o = true then as1.map fun a => if a.token = t then { a with isObserve := true } else a
+                                  else as1) t' = some a ∧ a.rcp = pos ∧ a.piv = piv ∧ a.nonce = nonce ∧ a.aad = aad ∧
+                                  (o = true → a.isObserve = true)) ∧
+      (¬ t' = t → findSAssoc (if o = true then as1.map fun a => if a.token = t then { a with isObserve := true } else a
                                else as1) t' = findSAssoc s.as t') := by
     intro as1 h1 h2
-    by_cases hvo : (v && o) = true
+    by_cases hvo : o = true
     · simp only [hvo, if_true]
       have hm := findSAssoc_map as1 t t' (fun a => { a with isObserve := true }) (fun _ => rfl)
       constructor
@@ -148,15 +190,17 @@ theorem findSAssoc_decrypt (s : Srv) (t : Bytes) (pos : RPos) (aad nonce piv : B
         obtain ⟨a, ha, r1, r2, r3, r4⟩ := h1 ht
         rw [hm, ha]
         simp only [ht, if_true, Option.map_some]
-        exact ⟨_, rfl, r1, r2, r3, r4⟩
+        exact ⟨_, rfl, r1, r2, r3, r4, fun _ => rfl⟩
       · intro ht
         rw [hm]
         simp only [ht, if_false]
         exact h2 ht
     · simp only [hvo, if_false, Bool.false_eq_true]
-      exact ⟨h1, h2⟩
+      refine ⟨fun ht => ?_, h2⟩
+      obtain ⟨a, ha, r1, r2, r3, r4⟩ := h1 ht
+      exact ⟨a, ha, r1, r2, r3, r4, fun h => h.elim⟩
   unfold srvDecrypt
-  simp only
+  simp only [Bool.not_true, Bool.false_eq_true, if_false]
   cases hf : findSAssoc s.as t with
   | none =>
     apply key
@@ -176,7 +220,14 @@ theorem findSAssoc_decrypt (s : Srv) (t : Bytes) (pos : RPos) (aad nonce piv : B
       rw [hm]
       simp [ht]
 
-/-- every association holds the recipient context of the latest `decrypt` step with its token -/
+/-- a `decrypt` step (verified or not) leaves the associations of other tokens alone -/
+theorem findSAssoc_decrypt_ne (s : Srv) (t : Bytes) (pos : RPos) (aad nonce piv : Bytes) (v o : Bool) (t' : Bytes)
+    (h : ¬ t' = t) : findSAssoc (srvDecrypt s t pos aad nonce piv v o).as t' = findSAssoc s.as t' := by
+  cases v with
+  | false => rw [srvDecrypt_unverified]
+  | true => exact (findSAssoc_decrypt s t pos aad nonce piv o t').2 h
+
+/-- every association holds the recipient context of the latest VERIFIED `decrypt` step with its token -/
 def SrvInv (s : Srv) (acc : Bytes → Option RPos) : Prop :=
   ∀ t a, findSAssoc s.as t = some a → acc t = some a.rcp
 
@@ -186,16 +237,23 @@ theorem SrvInv_step (s : Srv) (acc : Bytes → Option RPos) (x : SrvStep) (h : S
   | decrypt t pos aad nonce piv v o =>
     unfold srvStep srvTrack
     intro t' a ha
-    have hp := findSAssoc_decrypt s t pos aad nonce piv v o t'
-    by_cases ht : t' = t
-    · obtain ⟨a', h1, h2, _⟩ := hp.1 ht
-      rw [h1] at ha
-      injection ha with ha
-      subst ha
-      simp [ht, h2]
-    · rw [hp.2 ht] at ha
-      simp only [ht, if_false]
+    cases v with
+    | false =>
+      rw [srvDecrypt_unverified] at ha
+      simp only [Bool.false_eq_true, if_false]
       exact h t' a ha
+    | true =>
+      simp only [if_true]
+      have hp := findSAssoc_decrypt s t pos aad nonce piv o t'
+      by_cases ht : t' = t
+      · obtain ⟨a', h1, h2, _⟩ := hp.1 ht
+        rw [h1] at ha
+        injection ha with ha
+        subst ha
+        simp [ht, h2]
+      · rw [hp.2 ht] at ha
+        simp only [ht, if_false]
+        exact h t' a ha
   | protect t =>
     unfold srvStep srvTrack srvProtect
     intro t' a ha
@@ -230,7 +288,7 @@ theorem findSAssoc_step_ne (s : Srv) (x : SrvStep) (t : Bytes) (h : SrvStepToken
   cases x with
   | decrypt t0 pos aad nonce piv v o =>
     simp only [SrvStepToken] at h'
-    exact (findSAssoc_decrypt s t0 pos aad nonce piv v o t).2 h'
+    exact findSAssoc_decrypt_ne s t0 pos aad nonce piv v o t h'
   | protect t0 =>
     simp only [SrvStepToken] at h'
     simp only [srvStep, srvProtect]
@@ -256,5 +314,35 @@ theorem findSAssoc_run_ne (steps : List SrvStep) (t : Bytes) (h : ∀ x ∈ step
     unfold srvRun at this
     rw [this]
     exact findSAssoc_step_ne s x t (h x List.mem_cons_self)
+
+/-- a step that leaves the association of token `t` alone: it concerns another token, or it is a request (with whatever
+token, also `t`) that does not verify (fix 9631fdc) -/
+def SrvStepLeaves (t : Bytes) : SrvStep → Prop
+  | .decrypt t' _ _ _ _ v _ => t' ≠ t ∨ v = false
+  | .protect t' => t' ≠ t
+
+theorem findSAssoc_step_leaves (s : Srv) (x : SrvStep) (t : Bytes) (h : SrvStepLeaves t x) :
+    findSAssoc (srvStep s x).as t = findSAssoc s.as t := by
+  cases x with
+  | decrypt t0 pos aad nonce piv v o =>
+    rcases h with h | h
+    · exact findSAssoc_step_ne s _ t h
+    · subst h
+      simp only [srvStep]
+      rw [srvDecrypt_unverified]
+  | protect t0 => exact findSAssoc_step_ne s _ t h
+
+theorem findSAssoc_run_leaves (steps : List SrvStep) (t : Bytes) (h : ∀ x ∈ steps, SrvStepLeaves t x) :
+    ∀ s, findSAssoc (srvRun s steps).as t = findSAssoc s.as t := by
+  induction steps with
+  | nil => intro s; rfl
+  | cons x rest ih =>
+    intro s
+    unfold srvRun
+    rw [List.foldl_cons]
+    have := ih (fun y hy => h y (List.mem_cons_of_mem _ hy)) (srvStep s x)
+    unfold srvRun at this
+    rw [this]
+    exact findSAssoc_step_leaves s x t (h x List.mem_cons_self)
 
 end Coap
